@@ -5,7 +5,11 @@ mixed-radix path digit groups (C05.a), every address component used in the path
 (C05.b), compact bundle/slot addressing (C05.c), per-level dispatch (C05.d), SQL
 placeholder/column/row-key agreement and batching (C05.e), zero is a valid address
 component (C05.f), sibling API agreement (C05.g), replace-before-link for
-single-colour tiles (C05.h), sqlite writes are committed (C05.i)."""
+single-colour tiles (C05.h), sqlite writes are committed (C05.i).
+Added in round 4: every operation of a dimension-aware cache hands `dimensions` on to the locations
+it computes (C05.o); the sanitiser of dimension values is an injective escape scheme (C05.p); a bulk
+load / store of a per-level cache groups the tiles by level (C05.d); a store replaces the whole row
+(C05.e)."""
 import ast
 import re
 
